@@ -11,4 +11,4 @@ func vid(id MessageID) string         { return "" }
 func verr(err error) string           { return "" }
 func vparam(p [][]byte, i int) string { return "" }
 func vids(ms []*Message) []string     { return nil }
-func verifIDBase() int64 { return 0 }
+func verifIDBase() int64              { return 0 }
